@@ -32,6 +32,8 @@ type Op struct {
 	T   int      `json:"t,omitempty"`   // target selector among existing entries (del/upd/get)
 	Lo  *dbh.Val `json:"lo,omitempty"`
 	Hi  *dbh.Val `json:"hi,omitempty"`
+	LoT *int     `json:"lot,omitempty"` // range: lower / upper bound is the key of the T-th stored entry (a bound that is itself stored)
+	HiT *int     `json:"hit,omitempty"`
 	// upd: new key / new rid
 	NKey *dbh.Val `json:"nkey,omitempty"`
 	NRID [2]int64 `json:"nrid,omitempty"`
@@ -52,6 +54,7 @@ type entry struct {
 type stats struct {
 	pagesAllocated int
 	rangeAfterGrow bool
+	sweeps         int
 	maxEntries     int
 	classes        map[string]bool
 }
@@ -268,6 +271,19 @@ func run(c *Case, st *stats) *vf.Failure {
 			if !ordered {
 				continue
 			}
+			if len(model) > 0 {
+				if op.LoT != nil {
+					k := model[*op.LoT%len(model)].key
+					op.Lo = &k
+				}
+				if op.HiT != nil {
+					k := model[*op.HiT%len(model)].key
+					op.Hi = &k
+				}
+				if op.Lo != nil && op.Hi != nil && dbh.Compare3(*op.Lo, *op.Hi) > 0 {
+					op.Lo, op.Hi = op.Hi, op.Lo
+				}
+			}
 			got, f := scanRange(e, c, op.Lo, op.Hi)
 			if f != nil {
 				f.Msg = fmt.Sprintf("step %d: %s", step, f.Msg)
@@ -314,6 +330,34 @@ func run(c *Case, st *stats) *vf.Failure {
 		}
 		if d := diffEntries(got, model); d != "" {
 			return vf.Failf("range-mismatch:"+c.Kind, "final full scan with %d entries stored: %s", len(model), d)
+		}
+		// sweep: every stored key as an inclusive lower bound (and a stored key two positions further as upper bound),
+		// so that bounds falling on the first / last entry of every node are covered once nodes have split
+		if len(model) > 120 {
+			sorted := append([]entry{}, model...)
+			sort.SliceStable(sorted, func(i, j int) bool { return dbh.Compare3(sorted[i].key, sorted[j].key) < 0 })
+			stride := 1
+			if len(sorted) > 1200 {
+				stride = len(sorted)/1200 + 1
+			}
+			for i := 0; i < len(sorted); i += stride {
+				if i > 0 && dbh.Compare3(sorted[i-1].key, sorted[i].key) == 0 {
+					continue
+				}
+				j := i
+				for j+1 < len(sorted) && (j < i+2 || dbh.Compare3(sorted[j+1].key, sorted[j].key) == 0) {
+					j++
+				}
+				lo, hi := sorted[i].key, sorted[j].key
+				got, f := scanRange(e, c, &lo, &hi)
+				if f != nil {
+					return f
+				}
+				if d := diffEntries(got, sorted[i:j+1]); d != "" {
+					return vf.Failf("range-mismatch:"+c.Kind, "final sweep: range scan [%s,%s] (both bounds are stored keys) with %d entries stored: %s", lo, hi, len(model), d)
+				}
+				st.sweeps++
+			}
 		}
 	}
 	return nil
@@ -414,7 +458,7 @@ func genKey(t *rapid.T, c *Case, dense bool, l string) dbh.Val {
 			}
 			return dbh.FloatV(v)
 		default:
-			return dbh.FloatV(math.Float32frombits(rapid.Uint32().Draw(t, l) &^ 0x7F800000 | 0x3F000000)) // finite, spread over mantissas
+			return dbh.FloatV(math.Float32frombits(rapid.Uint32().Draw(t, l)&^0x7F800000 | 0x3F000000)) // finite, spread over mantissas
 		}
 	default:
 		max := 120
@@ -529,8 +573,17 @@ func genCase(t *rapid.T, long bool) *Case {
 			op.Key = &k
 			op.T = rapid.IntRange(0, 5000).Draw(t, "t")
 		case "range":
-			switch rapid.IntRange(0, 3).Draw(t, "rk") {
+			switch rapid.IntRange(0, 6).Draw(t, "rk") {
 			case 0:
+			case 4, 5, 6: // bounds that are stored keys
+				a, b := rapid.IntRange(0, 5000).Draw(t, "lot"), rapid.IntRange(0, 5000).Draw(t, "hit")
+				rk := rapid.IntRange(0, 2).Draw(t, "stored")
+				if rk != 1 {
+					op.LoT = &a
+				}
+				if rk != 0 {
+					op.HiT = &b
+				}
 			case 1:
 				k := genKey(t, c, dense, "lo")
 				op.Lo = &k
@@ -550,7 +603,7 @@ func genCase(t *rapid.T, long bool) *Case {
 	return c
 }
 
-const rule = "Case (sequential) = index kind (skip list, unique skip list, B-tree, hash) x key type (int, float, varchar) x pool size x operation sequence through the index.Index interface of a catalog-created table: InsertEntry / DeleteEntry / UpdateEntry (new key and/or new row id) / ScanKey / GetRangeScanIterator (full, open-low, open-high, closed); short sequences (5-60 ops) and long ones (200-900 bulk inserts, optional deletion of half of them, then mixed ops) so that nodes split and empty; keys from dense domains (duplicates on non-unique kinds), adjacent values, type extremes, -0.0/+0.0, strings with shared prefixes, 0x01/0xff bytes, up to the kind's length limit; row ids with large page ids and slots. Oracle: multimap model (ScanKey = exact row id set; range scans = exactly the entries in bounds, keys non-decreasing, each entry once). Concurrent phase: see its own rule. Non-trivial (sequential) = a range scan was checked after the container held more than 120 entries (nodes split), or the sequence is a long one."
+const rule = "Case (sequential) = index kind (skip list, unique skip list, B-tree, hash) x key type (int, float, varchar) x pool size x operation sequence through the index.Index interface of a catalog-created table: InsertEntry / DeleteEntry / UpdateEntry (new key and/or new row id) / ScanKey / GetRangeScanIterator (full, open-low, open-high, closed; bounds drawn from the key domain or taken from stored entries; after a long sequence every stored key is used once as inclusive lower bound); short sequences (5-60 ops) and long ones (200-900 bulk inserts, optional deletion of half of them, then mixed ops) so that nodes split and empty; keys from dense domains (duplicates on non-unique kinds), adjacent values, type extremes, -0.0/+0.0, strings with shared prefixes, 0x01/0xff bytes, up to the kind's length limit; row ids with large page ids and slots. Oracle: multimap model (ScanKey = exact row id set; range scans = exactly the entries in bounds, keys non-decreasing, each entry once). Concurrent phase: see its own rule. Non-trivial (sequential) = a range scan was checked after the container held more than 120 entries (nodes split), or the sequence is a long one."
 
 var assumptions = []string{
 	"entries are distinct by row id; no duplicate keys into the unique kind; delete/update only existing entries; hash: no update, no range scan, at most 1500 entries (fixed-size table)",
